@@ -180,6 +180,15 @@ fn bases<const N: usize>() -> Vec<(&'static str, Vec<R>)> {
         }
         out.push(("affine", s5));
     }
+    if N == 4 {
+        // the shapes of the projection matrices (column-major c*4 + r): an off-centre frustum (columns (a,0,0,0), (0,b,0,0),
+        // (A,B,C,-1), (0,0,D,0)), the centred perspective (A = B = 0), an off-centre ortho box
+        let z: R = (0, 1);
+        let fr = |a: R, b: R, aa: R, bb: R, cc: R, dd: R, e: R| -> Vec<R> { vec![a, z, z, z, z, b, z, z, aa, bb, cc, e, z, z, dd, z] };
+        out.push(("frustum-shaped", fr((3, 2), (-5, 4), (1, 3), (-2, 7), (-11, 9), (-20, 9), (-1, 1))));
+        out.push(("perspective-shaped", fr((3, 2), (5, 4), z, z, (-11, 9), (-20, 9), (-1, 1))));
+        out.push(("ortho-shaped", vec![(2, 3), z, z, z, z, (4, 5), z, z, z, z, (-2, 9), z, (-1, 3), (1, 5), (-11, 9), (1, 1)]));
+    }
     out
 }
 fn add(a: R, b: R) -> R {
@@ -194,7 +203,7 @@ fn generic<T: Tier, M: MatN<T, N> + InvT<T>, const N: usize>(rep: &mut Report) {
     rep.cases(
         &format!("generic/{}", M::NAME),
         T::NAME,
-        &format!("7-8 bases (3 generic, 2 exactly singular without zero entries, 1 with det ~2^-40, 1 scaled so that |det| << machine epsilon, for n >= 3 one affine with bottom row 0..0 1) x <= {k} deviations over A1"),
+        &format!("7-11 bases (3 generic, 2 exactly singular without zero entries, 1 with det ~2^-40, 1 scaled so that |det| << machine epsilon, for n >= 3 one affine with bottom row 0..0 1, for n = 4 the shapes of an off-centre frustum, a centred perspective and an ortho matrix) x <= {k} deviations over A1"),
         bs.len() * dev.len(),
         Guard::states(100).need("singular", 2).need("invertible", 50).distinct(50).inconclusive(0.02),
         |i, ctx| {
